@@ -81,9 +81,24 @@ pub fn observe(h: &H) -> Obs {
     }
 }
 
+/// every slot of the specification stands for `scale()` consecutive slots of the implementation's slice
+/// (TVH_LEN_SCALE, default 1): the same behaviours replayed with long slices
+pub fn scale() -> usize {
+    static K: std::sync::atomic::AtomicUsize = std::sync::atomic::AtomicUsize::new(0);
+    let k = K.load(Ordering::Relaxed);
+    if k != 0 {
+        return k;
+    }
+    let k = std::env::var("TVH_LEN_SCALE").ok().and_then(|v| v.parse().ok()).unwrap_or(1usize).max(1);
+    K.store(k, Ordering::Relaxed);
+    k
+}
+
 pub struct BlockInfo {
     addr: usize,
     hid: u32,
+    /// implementation slots per specification slot (1 for the sized kinds)
+    k: usize,
     /// identity written into each slot (0: never written)
     slot: Vec<u32>,
 }
@@ -128,7 +143,8 @@ impl Ctx {
         let (s, d) = (op.s, op.d);
         match op.name.as_str() {
             "NewUninit" => {
-                let len = op.s;
+                let k = if op.x.ends_with("sized") { 1 } else { scale() };
+                let len = op.s * k;
                 let c = op.x.clone();
                 let r = self.call(move || match c.as_str() {
                     "unq_sized" => (H::UqS(UniqueArc::<E>::new_uninit()), 0),
@@ -147,62 +163,59 @@ impl Ctx {
                     if o.len != if op.x.ends_with("sized") { 1 } else { len } {
                         bad!(self, "[contents] new uninit block reports {} slots, asked for {}", o.len, len);
                     }
-                    self.blocks.push(BlockInfo { addr: o.heap, hid, slot: vec![0; len.max(1)] });
+                    self.blocks.push(BlockInfo { addr: o.heap, hid, k, slot: vec![0; len.max(1)] });
                     self.slots[d] = Some(h);
                 }
             }
             "Write" | "ArcWrite" => {
-                let i = d - 1;
-                let val = E::mk(50 + d as u32);
-                let id = val.see().id;
                 let arc = op.name == "ArcWrite";
                 let b = self.slots[s].as_ref().map(|h| self.block_of(observe(h).heap)).unwrap_or(0);
+                let k = if b > 0 { self.blocks[b - 1].k } else { 1 };
+                let i0 = (d - 1) * k;
+                let mut vals: Vec<E> = (0..k).map(|_| E::mk(50 + d as u32)).collect();
+                let ids: Vec<u32> = vals.iter().map(|v| v.see().id).collect();
+                vals.reverse();
+                // write the k implementation slots the specification slot stands for; a refusal (panic or None)
+                // comes before the first of them
+                macro_rules! wr {
+                    ($sl:expr) => {{
+                        for j in 0..k {
+                            $sl[i0 + j].write(vals.pop().unwrap());
+                        }
+                        true
+                    }};
+                }
                 let r = match self.slots[s].as_mut() {
                     Some(h) => {
                         let hp: *mut H = h;
                         self.call(move || unsafe {
                             match &mut *hp {
                                 H::UqS(u) if !arc => {
-                                    u.write(val);
+                                    u.write(vals.pop().unwrap());
                                     true
                                 }
-                                H::UqL(u) if !arc => {
-                                    u[i].write(val);
-                                    true
-                                }
-                                H::UqH(u) if !arc => {
-                                    u.slice[i].write(val);
-                                    true
-                                }
-                                H::UqZ(u) if !arc => {
-                                    u.slice[i].write(val);
-                                    true
-                                }
+                                H::UqL(u) if !arc => wr!(u),
+                                H::UqH(u) if !arc => wr!(u.slice),
+                                H::UqZ(u) if !arc => wr!(u.slice),
                                 H::ArZ(a) if arc => match Arc::get_mut(a) {
-                                    Some(r) => {
-                                        r.slice[i].write(val);
-                                        true
-                                    }
+                                    Some(r) => wr!(r.slice),
                                     None => {
-                                        std::mem::forget(val);
+                                        vals.drain(..).for_each(std::mem::forget);
                                         false
                                     }
                                 },
                                 H::ArS(a) if arc => {
-                                    a.write(val);
+                                    a.write(vals.pop().unwrap());
                                     true
                                 }
                                 H::ArL(a) if arc => {
-                                    a.as_mut_slice()[i].write(val);
-                                    true
+                                    let sl = a.as_mut_slice();
+                                    wr!(sl)
                                 }
                                 H::ArH(a) if arc => match Arc::get_mut(a) {
-                                    Some(r) => {
-                                        r.slice[i].write(val);
-                                        true
-                                    }
+                                    Some(r) => wr!(r.slice),
                                     None => {
-                                        std::mem::forget(val);
+                                        vals.drain(..).for_each(std::mem::forget);
                                         false
                                     }
                                 },
@@ -216,7 +229,9 @@ impl Ctx {
                     Some(true) => {
                         self.last.verdict = Some(true);
                         if b > 0 {
-                            self.blocks[b - 1].slot[i] = id;
+                            for (j, id) in ids.iter().enumerate() {
+                                self.blocks[b - 1].slot[i0 + j] = *id;
+                            }
                         }
                     }
                     Some(false) => self.last.verdict = Some(false),
@@ -377,6 +392,7 @@ impl Ctx {
                             bad!(self, "[count] block {}: count through slot {} ({}) is {}, specification says {}", b, s, o.kind, c, xrc);
                         }
                     }
+                    let xlen = xlen * self.blocks[b - 1].k;
                     if o.len != xlen {
                         bad!(self, "[contents] block {}: {} slots through slot {} ({}), specification says {}", b, o.len, s, o.kind, xlen);
                     }
@@ -412,7 +428,7 @@ impl Ctx {
                 self.errors.push(format!("[drops] block {} ({}): header destroyed {} time(s), specification says {}", i + 1, st, hd, xhd));
             }
             for (k, id) in info.slot.iter().enumerate() {
-                let want = xb[i][6][k].as_u64().unwrap_or(0) as u32;
+                let want = xb[i][6][k / info.k].as_u64().unwrap_or(0) as u32;
                 let got = if *id != 0 { *drops.get(id).unwrap_or(&0) } else { 0 };
                 if got != want {
                     self.errors.push(format!("[drops] block {} ({}): object written into slot {} destroyed {} time(s), specification says {}", i + 1, st, k + 1, got, want));
